@@ -29,12 +29,17 @@ func runC04Temporal(r *simrt.Run, tier Tier) Outcome {
 		lo := int64(r.Choose(20, "c04t.lo"))
 		fmt.Fprintf(&src, "tev(/k%d)%s.\n", 1+r.Choose(3, "c04t.key"), c14Iv{lo, lo + int64(r.Choose(9, "c04t.len"))}.ann())
 	}
-	fmt.Fprintf(&src, "link(/k1, /k2)%s.\nlink(/k2, /k3)%s.\n", c14Iv{0, 30}.ann(), c14Iv{5, 25}.ann())
+	fmt.Fprintf(&src, "link(/k1, /k2)%s.\nlink(/k2, /k3)%s.\npl(/k1, 1).\npl(/k2, 2).\n", c14Iv{0, 30}.ann(), c14Iv{5, 25}.ann())
 	// body: which interval variables does it bind?
 	bodyBound := map[string]bool{"X": true}
 	var body string
 	recursive := false
-	switch r.Choose(6, "c04t.body") {
+	switch r.Choose(8, "c04t.body") {
+	case 6: // a plain atom with a wildcard: no interval variable gets a value
+		body = "pl(X, _)"
+	case 5: // a wildcard among the arguments (it is replaced by a fresh variable internally)
+		body = "link(X, _)@[S, E]"
+		bodyBound["S"], bodyBound["E"] = true, true
 	case 0:
 		body = "tev(X)@[S, E]"
 		bodyBound["S"], bodyBound["E"] = true, true
@@ -56,7 +61,10 @@ func runC04Temporal(r *simrt.Run, tier Tier) Outcome {
 	}
 	bound := func(k int, label string) (string, string) {
 		// returns the text of a head bound and the variable it needs ("" if none)
-		switch r.Choose(7, label) {
+		switch r.Choose(8, label) {
+		case 7:
+			// a variable nothing binds, spelled like the variables that replace wildcards
+			return "X" + fmt.Sprint(k-1), "X" + fmt.Sprint(k-1)
 		case 0:
 			return "S", "S"
 		case 1:
